@@ -4,6 +4,8 @@ import (
 	"fmt"
 	"go/ast"
 	"go/token"
+	"go/types"
+	"golang.org/x/tools/go/cfg"
 	"sort"
 	"strings"
 )
@@ -402,12 +404,48 @@ func checkStructTypesDeclaredBeforeUse(c *Check, r *Rule) {
 			return
 		}
 		g := L.CFG(fi)
+		// `_, ok := c.structTypes[t]`: on the edge where ok holds the entry exists as well
+		present := map[types.Object]bool{}
+		ast.Inspect(fi.Decl.Body, func(nd ast.Node) bool {
+			if as, ok := nd.(*ast.AssignStmt); ok && len(as.Lhs) == 2 && len(as.Rhs) == 1 {
+				if ix, ok := ast.Unparen(as.Rhs[0]).(*ast.IndexExpr); ok && commaOK[ix] {
+					if v := fieldOf(info, ix.X); v != nil && nameIs(v, "structTypes") {
+						if id, ok := as.Lhs[1].(*ast.Ident); ok {
+							if o := info.Defs[id]; o != nil {
+								present[o] = true
+							} else if o := info.Uses[id]; o != nil {
+								present[o] = true
+							}
+						}
+					}
+				}
+			}
+			return true
+		})
 		mf := &mustFlow{G: g, Init: 0, Transfer: func(nd ast.Node, s uint32) uint32 {
 			callsIn(nd, func(call *ast.CallExpr) {
 				if fn := Callee(info, call); fn != nil && (nameIs(fn, "defineOrDeclareStructType") || nameIs(fn, "defineOrDeclareAllDeclTypes")) {
 					s |= 1
 				}
 			})
+			return s
+		}, Edge: func(b *cfg.Block, i int, s uint32) uint32 {
+			if len(b.Nodes) == 0 {
+				return s
+			}
+			cond, ok := b.Nodes[len(b.Nodes)-1].(ast.Expr)
+			if !ok {
+				return s
+			}
+			cond = ast.Unparen(cond)
+			inv := false
+			if u, ok := cond.(*ast.UnaryExpr); ok && u.Op == token.NOT {
+				inv = true
+				cond = ast.Unparen(u.X)
+			}
+			if id, ok := cond.(*ast.Ident); ok && present[info.Uses[id]] && (i == 0) != inv {
+				return s | 1
+			}
 			return s
 		}}
 		mf.Run()
